@@ -5,6 +5,7 @@ INVARIANT ArchSubset
 INVARIANT UidUnique
 INVARIANT ParentMirror
 INVARIANT KeyIsId
+INVARIANT OnceEach
 INVARIANT Findable
 INVARIANT GetVSound
 PROPERTY RefusedNoop
@@ -22,3 +23,6 @@ CONSTANTS
  BottomUp = FALSE
  Dev_UidSubtreeUnchecked = FALSE
  Dev_TopKeepsParent = FALSE
+ UidKey <- JoinDash
+ KeyForms = {"id"}
+ Dev_KeyUnchecked = FALSE
